@@ -116,7 +116,11 @@ class Lockstep:
                 if back:
                     (y.sum() + lad.sum()).backward()
                     res["gradx"] = x.grad.detach().clone()
-                res.update(kind="out", y=y.detach(), lad=lad.detach(), x=x.detach(), inv=inv)
+                res.update(kind="out", y=y.detach().clone(), lad=lad.detach().clone(), x=x.detach(), inv=inv)
+                # the caller owns what it was handed: it may accumulate into the returned tensors in place (as
+                # CouplingTransform.inverse does with an unconditional transform's log-det); later passes must not notice
+                lad.detach().add_(7.0)
+                y.detach().mul_(-3.0)
             except RuntimeError as ex:
                 res.update(kind="err", msg=str(ex)[:160], x=x.detach(), inv=inv)
         c = t.cache
@@ -212,8 +216,9 @@ def run_history(ck, drv, name, ctor, image, u, ops, seed, mm):
                     kind = "stale-after-load_state_dict" if LOAD in prev else (
                         "stale-after-update" if UPD in prev else "stale")
                     ck.finding("cache:%s" % kind,
-                               "after %s cached output differs from recomputation (max diff %g)"
-                               % (hist["ops"], float((ry.detach() - res["y"]).abs().max())),
+                               "after %s (the caller accumulates into every returned tensor in place) cached output differs from "
+                               "recomputation (outputs: max diff %g, log-abs-det: max diff %g)"
+                               % (hist["ops"], float((ry.detach() - res["y"]).abs().max()), float((rl.detach() - res["lad"]).abs().max())),
                                {"search": "history", **hist})
                     return
 
